@@ -257,6 +257,120 @@ func classK7(node promParser.Node) bool {
 	})
 }
 
+// ---------------------------------------------------------------------------------------------
+// Per-VERDICT attribution of the liveness classes K1, K2, K6, K7: a dead source is traced down to the node that
+// introduced its dead flag, and the class predicate is evaluated at THAT node only (its operator, modifiers and
+// operands), so a defect elsewhere in an expression that merely contains such a construct is not attributed to the class.
+
+// verdictNode: the deepest node below `n` (following the source's position) at which the branch `s` is already dead.
+func verdictNode(expr string, n promParser.Node, s utils.Source) (promParser.Node, utils.Source) {
+	cur, at := n, s
+	for {
+		var next promParser.Node
+		var nextSrc utils.Source
+		for _, c := range promParser.Children(cur) {
+			if c == nil {
+				continue
+			}
+			_, isCall := cur.(*promParser.Call)
+			for _, cs := range utils.LabelsSource(expr, c) {
+				// parseCall re-positions the sources of an argument at the argument itself
+				if cs.IsDead && (cs.Position == at.Position || (isCall && c.PositionRange() == at.Position && cs.IsDeadReason == at.IsDeadReason)) {
+					next, nextSrc = c, cs
+					break
+				}
+			}
+			if next != nil {
+				break
+			}
+		}
+		if next == nil {
+			return cur, at
+		}
+		cur, at = next, nextSrc
+	}
+}
+
+func k7Decider(decider promParser.Node) bool {
+	return anyNode(decider, func(m promParser.Node) bool {
+		switch x := m.(type) {
+		case *promParser.BinaryExpr:
+			return x.VectorMatching != nil
+		case *promParser.Call:
+			return x.Func.Name == "clamp"
+		case *promParser.AggregateExpr:
+			return x.Op == promParser.TOPK || x.Op == promParser.BOTTOMK
+		}
+		return false
+	})
+}
+
+// verdictClass: the liveness class ("K1", "K2", "K6", "K7" or "") of the dead flag of branch `s` of node `n`.
+func verdictClass(expr string, n promParser.Node, s utils.Source) string {
+	if !s.IsDead {
+		return ""
+	}
+	m, at := verdictNode(expr, n, s)
+	for m != nil {
+		if p, ok := m.(*promParser.ParenExpr); ok {
+			m = p.Expr
+			continue
+		}
+		break
+	}
+	b, ok := m.(*promParser.BinaryExpr)
+	if !ok {
+		return ""
+	}
+	reason := at.IsDeadReason
+	switch {
+	case strings.Contains(reason, "which is not possible"):
+		if !b.Op.IsComparisonOperator() {
+			return ""
+		}
+		if b.ReturnBool {
+			return "K1"
+		}
+		if !(constValOK(b.LHS) && constValOK(b.RHS)) {
+			return "K6"
+		}
+	case strings.HasPrefix(reason, "the left hand side always"):
+		if b.Op != promParser.LOR || b.VectorMatching == nil {
+			return ""
+		}
+		if !(b.VectorMatching.On && len(b.VectorMatching.MatchingLabels) == 0) {
+			return "K2"
+		}
+		if k7Decider(b.LHS) {
+			return "K7"
+		}
+	case strings.Contains(reason, "`unless` query always returns"):
+		if b.Op == promParser.LUNLESS && k7Decider(b.RHS) {
+			return "K7"
+		}
+	}
+	return ""
+}
+
+// verdictClassOf: first known class among the dead branches `cands` of node `n`, in the priority order given.
+func verdictClassOf(expr string, n promParser.Node, cands []utils.Source, order []string) string {
+	found := map[string]bool{}
+	for _, s := range cands {
+		if c := verdictClass(expr, n, s); c != "" {
+			found[c] = true
+		}
+	}
+	for _, c := range order {
+		if found[c] {
+			return c
+		}
+	}
+	return ""
+}
+
+var c04ClassID = map[string]string{"K1": "C04-live-bool-K1", "K2": "C04-live-or-K2", "K6": "C04-live-static-value-K6", "K7": "C04-live-always-returns-K7"}
+var c12ClassID = map[string]string{"K1": "C12-bool-K1", "K2": "C12-or-K2", "K6": "C12-static-value-K6", "K7": "C12-always-returns-K7"}
+
 // orRHSDead: n is an `or` whose right-hand sources were all marked dead at this node.
 func orRHSDead(expr string, b *promParser.BinaryExpr) bool {
 	if b.Op != promParser.LOR {
@@ -467,17 +581,18 @@ func (pr *pqRunner) oracleC04(base pqCase, expr string, root promParser.Node, no
 			known := ""
 			what := fmt.Sprintf("C04: the engine returns series %s for `%s` but it is consistent with no live result branch of the analyser", lsetKey(ls), n.String())
 			if okAny {
-				// consistent with a branch wrongly marked dead: liveness classes of C12
-				switch {
-				case classK2(expr, n):
-					known = "C04-live-or-K2"
-				case classK1(expr, n):
-					known = "C04-live-bool-K1"
-				case classK6(expr, n):
-					known = "C04-live-static-value-K6"
-				case classK7(n):
-					known = "C04-live-always-returns-K7"
+				// consistent with a branch wrongly marked dead: liveness classes of C12, decided per verdict (the dead
+				// branches this very series is consistent with, each traced to the node that marked it dead)
+				cands := []utils.Source{}
+				for _, s := range srcs {
+					if s.IsDead && consistent(s, ls) {
+						cands = append(cands, s)
+					}
 				}
+				known = c04ClassID[verdictClassOf(expr, n, cands, []string{"K2", "K1", "K6", "K7"})]
+			}
+			if known == "" && !okAny && absentDupMatcher(n) {
+				known = "C04-absent-duplicate-matcher"
 			}
 			pr.failure(fmt.Sprintf("%d", base.ID), what, c, known)
 			break
@@ -487,15 +602,58 @@ func (pr *pqRunner) oracleC04(base pqCase, expr string, root promParser.Node, no
 			for _, l := range reported {
 				for _, ls := range res.Series {
 					if _, has := ls[l]; has {
+						known := ""
+						if absentDupLabel(n, l) {
+							known = "C04-absent-duplicate-matcher"
+						}
 						pr.failure(fmt.Sprintf("%d", base.ID),
 							fmt.Sprintf("C04: alerts/template reports label `%s` as non-existent for the single-branch query `%s` but the engine returns %s", l, expr, lsetKey(ls)),
-							c, "")
+							c, known)
 						break
 					}
 				}
 			}
 		}
 	}
+}
+
+// absentDupLabel: known finding C04-absent-duplicate-matcher for label `l`: the node contains absent()/absent_over_time()
+// of a plain (matrix) selector in which `l` is matched more than once (absentLabels then drops `l`, the engine keeps it
+// when the first equality matcher of `l` has a non-empty value and no other matcher of `l` follows).
+func absentDupLabel(node promParser.Node, l string) bool {
+	return anyNode(node, func(n promParser.Node) bool {
+		c, ok := n.(*promParser.Call)
+		if !ok || (c.Func.Name != "absent" && c.Func.Name != "absent_over_time") || len(c.Args) != 1 {
+			return false
+		}
+		var vs *promParser.VectorSelector
+		switch a := c.Args[0].(type) {
+		case *promParser.VectorSelector:
+			vs = a
+		case *promParser.MatrixSelector:
+			vs, _ = a.VectorSelector.(*promParser.VectorSelector)
+		}
+		if vs == nil {
+			return false
+		}
+		cnt := 0
+		for _, m := range vs.LabelMatchers {
+			if m.Name == l {
+				cnt++
+			}
+		}
+		return cnt > 1
+	})
+}
+
+// absentDupMatcher: some label is matched twice in the selector of an absent() call inside the node.
+func absentDupMatcher(node promParser.Node) bool {
+	for _, l := range pqTemplateVars {
+		if absentDupLabel(node, l) {
+			return true
+		}
+	}
+	return false
 }
 
 // deadInherited: an operand whose result branches flow into n's branches already has only dead branches
@@ -558,18 +716,13 @@ func (pr *pqRunner) oracleC12(base pqCase, expr string, nodes []promParser.Node,
 		if allDead(srcs) && !deadInherited(expr, n) {
 			pr.rep.hist("c12:all-branches-dead")
 			if res.Kind == "scalar" || len(res.Series) > 0 {
-				known := ""
-				switch {
-				case classK1(expr, n):
-					known = "C12-bool-K1"
-				case classK6(expr, n):
-					known = "C12-static-value-K6"
-				case pr.joinClassNode(expr, n) != "":
+				// per verdict: every branch is dead; the claim fails because at least one of these verdicts is wrong
+				known := c12ClassID[verdictClassOf(expr, n, srcs, []string{"K1", "K6"})]
+				if known == "" {
 					known = pr.joinClassNode(expr, n)
-				case classK2(expr, n):
-					known = "C12-or-K2"
-				case classK7(n):
-					known = "C12-always-returns-K7"
+				}
+				if known == "" {
+					known = c12ClassID[verdictClassOf(expr, n, srcs, []string{"K2", "K7"})]
 				}
 				pr.failure(id, fmt.Sprintf("C12: every result branch of `%s` is reported dead (%s) but the engine returns %d series / a scalar",
 					n.String(), srcs[0].IsDeadReason, len(res.Series)), c, known)
@@ -589,16 +742,9 @@ func (pr *pqRunner) oracleC12(base pqCase, expr string, nodes []promParser.Node,
 			if orRHSDead(expr, b) {
 				pr.rep.hist("c12:or-rhs-dead")
 				if !sameSeriesSets(res.Series, results[li].Series) {
-					known := ""
-					if classK2(expr, b) {
-						known = "C12-or-K2"
-					} else if classK1(expr, b) {
-						known = "C12-bool-K1"
-					} else if classK7(b) {
-						known = "C12-always-returns-K7"
-					} else if classK6(expr, b) {
-						known = "C12-static-value-K6"
-					}
+					// per verdict: the right-hand branches marked dead at this very node
+					rhsN := len(utils.LabelsSource(expr, b.RHS))
+					known := c12ClassID[verdictClassOf(expr, b, srcs[len(srcs)-rhsN:], []string{"K2", "K7", "K1", "K6"})]
 					pr.failure(id, fmt.Sprintf("C12: the right hand side of `%s` is reported dead but it contributes series to the result", n.String()), c, known)
 				}
 			}
@@ -772,61 +918,16 @@ func k3Label(b *promParser.BinaryExpr, many promParser.Node, l string) bool {
 	return l != "" && !mustHave(many, l) && k3Mechanism(b, many, l)
 }
 
-// k10Label: known finding K10 for a join verdict on label `l`: the driving side contains absent()/absent_over_time()
-// whose innermost selector has an equality matcher on `l` that the engine does NOT turn into a label of the result:
-// the argument is not a plain (matrix) selector, the matcher value is empty, or the name is matched twice.  The
-// analyser includes and guarantees every equality-matched name of `s.Selector` regardless.
-func k10Label(many promParser.Node, l string) bool {
-	if l == "" || mustHave(many, l) {
-		return false
-	}
-	return anyNode(many, func(n promParser.Node) bool {
-		c, ok := n.(*promParser.Call)
-		if !ok || (c.Func.Name != "absent" && c.Func.Name != "absent_over_time") || len(c.Args) != 1 {
-			return false
-		}
-		var plain *promParser.VectorSelector
-		switch a := c.Args[0].(type) {
-		case *promParser.VectorSelector:
-			plain = a
-		case *promParser.MatrixSelector:
-			plain, _ = a.VectorSelector.(*promParser.VectorSelector)
-		}
-		return anyNode(c.Args[0], func(m promParser.Node) bool {
-			vs, ok := m.(*promParser.VectorSelector)
-			if !ok {
-				return false
-			}
-			cnt, empty, eq := 0, false, false
-			for _, lm := range vs.LabelMatchers {
-				if lm.Name == l {
-					cnt++
-					if lm.Type == labels.MatchEqual {
-						eq = true
-						if lm.Value == "" {
-							empty = true
-						}
-					}
-				}
-			}
-			return eq && (vs != plain || empty || cnt > 1)
-		})
-	})
-}
-
 // joinClass: the known-finding class (or "") of one join verdict of operation `b` on label `l`.
 func joinClass(b *promParser.BinaryExpr, many promParser.Node, l string) string {
-	switch {
-	case k3Label(b, many, l):
+	if k3Label(b, many, l) {
 		return "C12-must-have-K3"
-	case k10Label(many, l):
-		return "C12-absent-labels-K10"
 	}
 	return ""
 }
 
 // joinClassNode: some join verdict inside `node` falls into a known class (K3: it rests on a label the "many" side is
-// not guaranteed to carry and a K3 mechanism explains the belief; K10: absent() labels).
+// not guaranteed to carry and a K3 mechanism explains the belief).
 func (pr *pqRunner) joinClassNode(expr string, node promParser.Node) string {
 	found := ""
 	anyNode(node, func(n promParser.Node) bool {
